@@ -67,6 +67,25 @@ pub fn tris_bits_eq<A: Attr>(x: &[Tri<ClipVert<A>>], y: &[Tri<ClipVert<A>>]) -> 
             .all(|(a, b)| (0..3).all(|i| bits_eq(&a.0[i], &b.0[i])))
 }
 
+/// The same triangles whatever their order in the output: "the result does
+/// not depend on how many other triangles are clipped in the same call" says
+/// nothing about where in `out` a triangle's pieces land (a clipper may emit
+/// the wholly-inside ones first, or work through the input backwards).
+pub fn tris_bits_eq_unordered<A: Attr>(x: &[Tri<ClipVert<A>>], y: &[Tri<ClipVert<A>>]) -> bool {
+    let key = |t: &Tri<ClipVert<A>>| -> Vec<u32> {
+        let mut k = vec![];
+        for v in &t.0 {
+            k.extend(v.pos.0.iter().map(|c| c.to_bits()));
+            k.extend(v.attrib.comps().iter().map(|c| c.to_bits()));
+        }
+        k
+    };
+    let (mut a, mut b): (Vec<_>, Vec<_>) = (x.iter().map(key).collect(), y.iter().map(key).collect());
+    a.sort();
+    b.sort();
+    a == b
+}
+
 pub fn clip_one<A: Attr>(t: &InTri) -> Result<Vec<Tri<ClipVert<A>>>, String> {
     let tri = to_clip::<A>(t);
     catch(|| {
@@ -602,7 +621,25 @@ fn scale_case<A: Attr>(rng: &mut Rng, rep: &mut Report) {
                     && x.0[i].attrib.comps().map(f32::to_bits) == y.0[i].attrib.comps().map(f32::to_bits)
             })
         });
-    if !same {
+    if same {
+        rep.count("scale.bit_identical_up_to_the_power_of_two");
+    }
+    // Exact scale invariance is what a clipper built from +, −, ×, ÷ and sign
+    // tests has for free, and it is how F21 was found; but the statement asks
+    // for the right cover at every scale, not for identical bits. When the
+    // bits differ, the scaled output is judged on its own by the same oracle.
+    // (RFMON_FORCE_SCALE_JUDGE=1: self-test of the fallback on every case)
+    let scaled_ok = (same && std::env::var_os("RFMON_FORCE_SCALE_JUDGE").is_none()) || {
+        let mut r2 = Report::new();
+        judge::<A>(&mut r2, &ts, &o1, rng);
+        if r2.n_violations() == 0 {
+            rep.count("scale.bits_differ_but_the_scaled_output_is_correct");
+            true
+        } else {
+            false
+        }
+    };
+    if !scaled_ok {
         rep.violation(
             "clip.scale_dependence",
             format!("clip(2^{k}·T) is not 2^{k}·clip(T): {} output triangle(s) at unit scale, {} at scale 2^{k}", o0.len(), o1.len()),
@@ -676,7 +713,10 @@ fn batch_case<A: Attr>(rng: &mut Rng, rep: &mut Report) {
         }
     }
     rep.add("batch.members_with_output", nonempty);
-    if !tris_bits_eq(&whole, &concat) {
+    if tris_bits_eq(&whole, &concat) {
+        rep.count("batch.output_in_input_order");
+    }
+    if !tris_bits_eq_unordered(&whole, &concat) {
         rep.violation(
             "clip.batch_dependence",
             format!("clipping {n} triangles in one call gave {} triangles, one call each gave {} (or different bits)", whole.len(), concat.len()),
@@ -698,7 +738,7 @@ fn batch_case<A: Attr>(rng: &mut Rng, rep: &mut Report) {
                 concat_p.extend(o);
             }
         }
-        if !tris_bits_eq(&wp, &concat_p) {
+        if !tris_bits_eq_unordered(&wp, &concat_p) {
             rep.violation("clip.batch_dependence", format!("permuted batch of {n} differs from per-triangle clipping"), cj());
         }
     }
@@ -712,7 +752,7 @@ pub fn run(cfg: &Cfg, rep: &mut Report) {
     // pinned sanity witnesses (regression anchors for the oracle itself)
     {
         let t = InTri { p: [[0., 0., 0., 1.], [2., 0., 0., 1.], [0., 0., 2., 1.]], a: [[0.0; MAXC], [1.0, 0., 0., 0., 0.], [2.0, 0., 0., 0., 0.]] };
-        let r = clip_one::<f32>(&t).and_then(|o| if o.len() == 2 { Ok(()) } else { Err(format!("expected a quad (2 triangles), got {}", o.len())) });
+        let r = clip_one::<f32>(&t).and_then(|o| if o.len() >= 2 { Ok(()) } else { Err(format!("expected a quad (two triangles or more), got {}", o.len())) });
         rep.pin("clip.quad_example", r);
     }
 
@@ -724,7 +764,7 @@ pub fn run(cfg: &Cfg, rep: &mut Report) {
         let a = [[0.0; MAXC], [1.0, 0., 0., 0., 0.], [2.0, 0., 0., 0., 0.]];
         let (t, ts) = (InTri { p, a }, InTri { p: p.map(|v| v.map(|x| x * f)), a });
         let r = match (clip_one::<f32>(&t), clip_one::<f32>(&ts)) {
-            (Ok(o0), Ok(o1)) if o0.len() == o1.len() && !o0.is_empty() => Ok(()),
+            (Ok(o0), Ok(o1)) if !o0.is_empty() && !o1.is_empty() => Ok(()),
             (Ok(o0), Ok(o1)) => Err(format!("clip of the triangle scaled by 2^-74 yields {} triangle(s), unscaled {}", o1.len(), o0.len())),
             _ => Err("clip panicked".into()),
         };
